@@ -25,6 +25,41 @@ def opener(path):
     return open(path, "rb")
 
 
+class recording_opens(object):
+    """Hook on the three ways a path can be opened (builtins.open, gzip.open, bz2.BZ2File): records every
+    file object created while active, so that the caller can assert they were all closed again."""
+
+    def __enter__(self):
+        import builtins
+        self.made = []
+        self._b, self._g, self._z = builtins.open, gzip.open, bz2.BZ2File
+        rec = self.made
+
+        def wrap(fn):
+            def opener(*a, **kw):
+                f = fn(*a, **kw)
+                rec.append(f)
+                return f
+            return opener
+        builtins.open = wrap(self._b)
+        gzip.open = wrap(self._g)
+
+        class _BZ2(self._z):
+            def __init__(inner, *a, **kw):
+                super(_BZ2, inner).__init__(*a, **kw)
+                rec.append(inner)
+        bz2.BZ2File = _BZ2
+        return self
+
+    def __exit__(self, *exc):
+        import builtins
+        builtins.open, gzip.open, bz2.BZ2File = self._b, self._g, self._z
+        return False
+
+    def left_open(self):
+        return [repr(f) for f in self.made if not f.closed]
+
+
 class Target(object):
     """one write destination; .write(fn) calls fn(target_argument); .data() returns the bytes"""
 
@@ -34,13 +69,18 @@ class Target(object):
         self.path = None
         self.fobj = None
         self.closed_by_library = None
+        self.opened = 0
+        self.left_open = []
 
     def write(self, fn):
         if self.kind.startswith("path"):
             self.path = os.path.join(self.dir, "out" + self.kind[4:])
             if os.path.exists(self.path):
                 os.remove(self.path)
-            fn(self.path)
+            with recording_opens() as rec:
+                fn(self.path)
+            self.opened = len(rec.made)
+            self.left_open = rec.left_open()
         elif self.kind == "fileobj":
             self.path = os.path.join(self.dir, "out.obj")
             self.fobj = open(self.path, "wb")
